@@ -66,7 +66,7 @@ def confirm(pid, x, detect_props):
     # detection by our checks
     res["detected_by"] = {}
     for p in detect_props:
-        rc, out = sh("MAXLINES=40 %s/tools/try_mutant.sh %s %s quick" % (ROOT, patch_path(d), p), cwd=ROOT, timeout=3600)
+        rc, out = sh("MAXLINES=40 %s/tools/try_mutant_scratch.sh %s %s quick" % (ROOT, patch_path(d), p), cwd=ROOT, timeout=3600)
         sigs = re.findall(r"signature=(\S+)", out)
         res["detected_by"][p] = {"exit": rc, "signatures": sigs[:12]}
     res["confirmed"] = bool(res.get("demo_passes_unchanged") and res.get("patch_applies") and res.get("demo_fails_with_change") and res.get("suite_passes_with_change"))
